@@ -207,7 +207,11 @@ func (w *World) structOf(t types.Type) *structInfo {
 	w.structs[name] = si
 	for i := 0; i < st.NumFields(); i++ {
 		si.fields = append(si.fields, w.sortOf(st.Field(i).Type()))
-		si.fnames = append(si.fnames, fmt.Sprintf("%s.%s", name, sanitize(st.Field(i).Name())))
+		fn := sanitize(st.Field(i).Name())
+		if fn == "_" {
+			fn = fmt.Sprintf("blank%d", i)
+		}
+		si.fnames = append(si.fnames, fmt.Sprintf("%s.%s", name, fn))
 	}
 	return si
 }
@@ -322,14 +326,46 @@ func (w *World) isBox(t types.Type, x *Term) *Term {
 	if x.kind == kLeaf && x.op == "iface_nil" {
 		return w.ts.False()
 	}
+	if x.kind == kApp && x.op == "ite" && ifaceIteDepth(x, 0) <= 8 {
+		return w.ts.Ite(x.args[0], w.isBox(t, x.args[1]), w.isBox(t, x.args[2]))
+	}
 	return w.ts.App("(_ is "+b.ctor+")", SBool, x)
+}
+
+// ifaceIteDepth: size of an ite tree whose leaves are constructor applications.
+func ifaceIteDepth(x *Term, n int) int {
+	if n > 64 {
+		return n
+	}
+	if x.kind == kApp && x.op == "ite" {
+		n = ifaceIteDepth(x.args[1], n)
+		return ifaceIteDepth(x.args[2], n)
+	}
+	if (x.kind == kApp && strings.HasPrefix(x.op, "box_")) || (x.kind == kLeaf && x.op == "iface_nil") {
+		return n + 1
+	}
+	return n + 100 // opaque leaf: do not distribute
 }
 func (w *World) unbox(t types.Type, x *Term) *Term {
 	b := w.boxOf(t)
 	if x.kind == kApp && x.op == b.ctor {
 		return x.args[0]
 	}
+	if x.kind == kApp && x.op == "ite" && ifaceIteDepth(x, 0) <= 8 {
+		// leaves of another constructor contribute an arbitrary (unused) payload: use the zero value
+		return w.ts.Ite(x.args[0], w.unboxOrZero(t, x.args[1]), w.unboxOrZero(t, x.args[2]))
+	}
 	return w.ts.App("un"+b.ctor, b.payload, x)
+}
+
+// unboxOrZero: payload of x if it is a box of t, else the accessor applied to it
+// (unspecified in SMT; only reachable under a false is-test).
+func (w *World) unboxOrZero(t types.Type, x *Term) *Term {
+	b := w.boxOf(t)
+	if (x.kind == kApp && strings.HasPrefix(x.op, "box_") && x.op != b.ctor) || (x.kind == kLeaf && x.op == "iface_nil") {
+		return w.zeroOf(t)
+	}
+	return w.unbox(t, x)
 }
 
 // ---- strings
